@@ -135,7 +135,7 @@ def run(wd, binp, prop, tier, seed, v):
     if cov["behaviours"] == 0 or cov["steps"] == 0:
         raise Broken("no schedule was replayed")
     never = [a for a in ("OpenFd", "CreateFd", "Acquire", "ReadHeader", "InitFile", "ReadPage", "Observe", "WLoad", "WStamp", "SyncDone",
-                         "Close", "Drop", "FlipHeader") if cov["by_action"].get(a, 0) == 0]
+                         "Close", "Drop", "CloseAgain", "FlipHeader") if cov["by_action"].get(a, 0) == 0]
     if never and not v.violations:
         raise Broken("actions never replayed: %s" % never)
     cov["graph"] = gst
